@@ -44,11 +44,11 @@ PROPS = {
         "assumptions": ["capacity limits (16 members, 14 groups) are preconditions"],
     },
     "C04": {
-        "claim": 'Decides GC7 completely: the tag write in add() is guarded by the pre-state tag being 0, the reset of edges, data and read status co-occurs with it on exactly the same paths, and no other path of add() writes anything; add() contains no always-compiled assertion about the vacant slot other than the documented preconditions (and "holds no unread datum", which counter exactness gives), so re-creating a collected id completes. CL1 (a clone has every slot of the vertex table of the original) is run as a premise: the statement holds on clones as well. GC2 (a collection marks every member of the group absent) is run as a premise of the clause about ids whose vertex was collected: such an id is absent. XP1 (keys/len/is_empty instances) is run as a premise: "present" as observed through keys(), len() and is_empty() is "tag != 0", exactly — the state add() establishes.',
+        "claim": 'Decides GC7 completely: the tag write in add() is guarded by the pre-state tag being 0, the reset of edges, data and read status co-occurs with it on exactly the same paths, and no other path of add() writes anything; add() contains no always-compiled assertion about the vacant slot other than the documented preconditions (and "holds no unread datum", which counter exactness gives), so re-creating a collected id completes. CL1 (a clone has every slot of the vertex table of the original) is run as a premise: the statement holds on clones as well. GC2 (a collection marks every member of the group absent) is run as a premise of the clause about ids whose vertex was collected: such an id is absent. XP1 (keys/len/is_empty instances) is run as a premise: "present" as observed through keys(), len() and is_empty() is "tag != 0", exactly — the state add() establishes. GC9 is run as a premise: every id below the capacity has a slot for add() to fill.',
         "note": 'Trusted: rustc front end + engine; micromap::Map::new / Hex::empty produce blank values (read).',
         "technique": 'MIR guard + co-occurrence rule on add()',
         "rules": [("GC7", functools.partial(G.gc7, part="abc")), ("CL1/CL4", NX.cl1), ("GC2", G.gc2),
-                  ("XP1", functools.partial(L.xp1, only=("Sodg::keys", "Sodg::len")))],
+                  ("XP1", functools.partial(L.xp1, only=("Sodg::keys", "Sodg::len"))), ("GC9", G.gc9)],
         "explanation": "add(): tag := 1 only under pre-state tag ∈ {0}, with edges/data/read status reset on the same paths; "
                        "no effect on a present vertex.",
         "trusted": [RUSTC, CONTAINERS],
@@ -102,10 +102,10 @@ PROPS = {
         "assumptions": [],
     },
     "C16": {
-        "claim": "HX3 (the byte view concat() reads its operands through is the array cut at its length / the heap vector, and is total) and HX2 (equality of two values looks at their bytes only: the result of concat() equals the same bytes built any other way) are run as premises. Decides CC1–CC3 completely for concat(): no byte source appended to the result is a whole inline array (sources are bytes() views, the heap vector, or the array cut at its length field); the heap result is left bytes then right bytes exactly once each with no other conditional change of the vector; the inline result is built only under the tested fact l + len(h) ≤ 8, records l + len(h) and has the right bytes placed from index l of a copy of the left array; both operands are shared references to a type without interior mutability in a module without unsafe code.",
+        "claim": "HX3 (the byte view concat() reads its operands through is the array cut at its length / the heap vector, and is total) and HX2 (equality of two values looks at their bytes only: the result of concat() equals the same bytes built any other way) are run as premises. Decides CC1–CC3 completely for concat(): no byte source appended to the result is a whole inline array (sources are bytes() views, the heap vector, or the array cut at its length field); the heap result is left bytes then right bytes exactly once each with no other conditional change of the vector; the inline result is built only under the tested fact l + len(h) ≤ 8, records l + len(h) and has the right bytes placed from index l of a copy of the left array; both operands are shared references to a type without interior mutability in a module without unsafe code. CC4: concat() contains no checked subtraction on lengths (it is total: no underflow panic for empty or short operands).",
         "note": "Trusted: rustc front end + engine; Vec::extend_from_slice / copy_from_slice semantics. Known finding F6 (inline-to-heap spill copies the whole array) is listed in known_findings.json because the existing test concatenates_from_hex_vec asserts the defective length.",
         "technique": "MIR provenance of appended byte sources + ordering by dominance",
-        "rules": [("CC1", H.cc1), ("CC2", H.cc2), ("CC3", H.cc3), ("HX3", H.hx3), ("HX2", H.hx2)],
+        "rules": [("CC1", H.cc1), ("CC2", H.cc2), ("CC3", H.cc3), ("CC4", H.cc4), ("HX3", H.hx3), ("HX2", H.hx2)],
         "explanation": "CC1 provenance of every appended byte source, CC2 order and recorded length, CC3 operands unchanged.",
         "trusted": [RUSTC],
         "assumptions": [],
@@ -147,10 +147,10 @@ PROPS = {
         "assumptions": [],
     },
     "C07": {
-        "claim": "Decides the sodg-side clause, in the conservative direction: no user-written unsafe block/fn/impl/extern block, raw pointer or transmute anywhere in the crate (HIR + MIR); every resolved callee in emap/micromap/microstack is outside the audited deny-list (uninitialised constructor, bitwise-reading iterators, *_unchecked, any unsafe fn), so each element access goes through an entry point that asserts its bound in a debug-assertion build; Stack::from_vec only on a literal of at most 16 elements; the locked checksums of the containers equal the audited ones; the element types for which the containers' bitwise reads are sound are unchanged; a graph built from the ids of another one (slice) gets that graph's vertex capacity. It can reject code that is in fact safe; it cannot accept code that leaves the checked API. Does not decide the containers' internals, release builds, or 'calls within the limits complete' (C02's no-panic clause). GC6c: the two group tables are created with the same size, so a group id valid for one is valid for the other. NX2: next_id() searches the whole vertex store from the allocator position, so it completes whenever an absent id at or above the position remains (one instance of 'calls within the limits complete'; the clause as a whole is not decided). CL1: a clone has every table of the original (a clone without the counters stops in the first read). RW1: bind() contains no always-compiled assertion other than the documented preconditions and the container's own full-map condition, and records an edge only through micromap's insert (which asserts room for a new key) or a checked_insert whose refusal is unwrapped, so the (N+1)-th label stops with a panic. MS7 (check before change): in add/bind/put/data every change of the graph is dominated by the vertex-table lookup of each id parameter, so a call stopped for an id at or above the capacity leaves the graph as it was and later calls within the limits still complete. LM (exact): a member list holds exactly 16 vertices, so the 17th member of a group stops in microstack's push assertion, and the group tables have at least the documented 16 slots. MS8: an iterator of microstack (a raw pointer without a lifetime) made from a stack that is a local value never leaves the function that owns the stack. GC5 is run as a premise of the group-size clause: bind() enlists a vertex only through microstack's asserting push(), paired with the tag write, so the 17th member stops with a panic instead of being dropped silently (try_push with its answer ignored).",
+        "claim": "Decides the sodg-side clause, in the conservative direction: no user-written unsafe block/fn/impl/extern block, raw pointer or transmute anywhere in the crate (HIR + MIR); every resolved callee in emap/micromap/microstack is outside the audited deny-list (uninitialised constructor, bitwise-reading iterators, *_unchecked, any unsafe fn), so each element access goes through an entry point that asserts its bound in a debug-assertion build; Stack::from_vec only on a literal of at most 16 elements; the locked checksums of the containers equal the audited ones; the element types for which the containers' bitwise reads are sound are unchanged; a graph built from the ids of another one (slice) gets that graph's vertex capacity. It can reject code that is in fact safe; it cannot accept code that leaves the checked API. Does not decide the containers' internals, release builds, or 'calls within the limits complete' (C02's no-panic clause). GC6c: the two group tables are created with the same size, so a group id valid for one is valid for the other. NX2: next_id() searches the whole vertex store from the allocator position, so it completes whenever an absent id at or above the position remains (one instance of 'calls within the limits complete'; the clause as a whole is not decided). CL1: a clone has every table of the original (a clone without the counters stops in the first read). RW1: bind() contains no always-compiled assertion other than the documented preconditions and the container's own full-map condition, and records an edge only through micromap's insert (which asserts room for a new key) or a checked_insert whose refusal is unwrapped, so the (N+1)-th label stops with a panic. MS7 (check before change): in add/bind/put/data every change of the graph is dominated by the vertex-table lookup of each id parameter, so a call stopped for an id at or above the capacity leaves the graph as it was and later calls within the limits still complete. LM (exact): a member list holds exactly 16 vertices, so the 17th member of a group stops in microstack's push assertion, and the group tables have at least the documented 16 slots. MS8: an iterator of microstack (a raw pointer without a lifetime) made from a stack that is a local value never leaves the function that owns the stack. GC5 is run as a premise of the group-size clause: bind() enlists a vertex only through microstack's asserting push(), paired with the tag write, so the 17th member stops with a panic instead of being dropped silently (try_push with its answer ignored). GC9 is run as a premise of 'calls within the limits complete': the constructor gives every id below the capacity a slot and nothing removes one.",
         "note": "Trusted: the audit of emap 0.0.13 / micromap 0.0.19 / microstack 0.0.7 by reading (DESIGN §3): bounds asserted under debug_assertions, push asserts in all builds. Claimed for debug-assertion builds only, as the property says.",
         "technique": "HIR/MIR unsafe scan + who-may-call deny-list over resolved callees + lockfile/type facts",
-        "rules": [("MS1", MS.ms1), ("MS2", MS.ms2), ("MS3", MS.ms3), ("MS4", MS.ms4), ("MS5", MS.ms5), ("MS6", MS.ms6), ("MS7", MS.ms7), ("MS8", MS.ms8), ("RW1", functools.partial(RW.rw1, only_stop=True)), ("NX2/NX3", NX.nx23), ("CL1/CL4", NX.cl1), ("GC6c", functools.partial(G.gc6, parts="c")), ("LM", functools.partial(G.limits, exact=True)), ("MS2x", MS.ms_cross), ("GC5", G.gc5)],
+        "rules": [("MS1", MS.ms1), ("MS2", MS.ms2), ("MS3", MS.ms3), ("MS4", MS.ms4), ("MS5", MS.ms5), ("MS6", MS.ms6), ("MS7", MS.ms7), ("MS8", MS.ms8), ("RW1", functools.partial(RW.rw1, only_stop=True)), ("NX2/NX3", NX.nx23), ("CL1/CL4", NX.cl1), ("GC6c", functools.partial(G.gc6, parts="c")), ("LM", functools.partial(G.limits, exact=True)), ("MS2x", MS.ms_cross), ("GC5", G.gc5), ("GC9", G.gc9)],
         "explanation": "MS1 no unsafe, MS2 container deny-list over all resolved callees (floor 60 sites), MS3 from_vec literal, MS4 audited checksums, MS5 element types; thorough adds a clippy disallowed_methods cross-check.",
         "trusted": [RUSTC, CONTAINERS],
         "assumptions": ["debug-assertion builds"],
